@@ -39,6 +39,9 @@ pub struct Case {
     pub expect: Expect,
     /// for evidence: marker name -> instantiated value
     pub values: BTreeMap<String, String>,
+    /// warm the regex cache (0 = never, 1 = once, 2 = twice) between insertion and the request
+    #[serde(default)]
+    pub cache_calls: u8,
 }
 
 // ---------------------------------------------------------------------------------------------
@@ -492,6 +495,7 @@ pub fn random_case(rng: &mut Rng) -> Case {
             body_html: substitute(&html_t, &subst),
         },
         values: placed,
+        cache_calls: *rng.pick(&[0u8, 0, 1, 2]),
     }
 }
 
@@ -505,6 +509,9 @@ pub fn check(case: &Case) -> Result<(), Failure> {
     let fail = |class: &'static str, message: String| Err(Failure { class, message });
     let mut router = Router::<Rule>::from_config(case.cfg.build());
     router.insert(case.rule.to_rule());
+    for _ in 0..case.cache_calls {
+        router.cache(Some(1000));
+    }
     let config = case.cfg.build();
     let request = case.request.build(&config);
     let routes = router.match_request(&request);
@@ -588,6 +595,9 @@ fn record(ctx: &Ctx, case: &Case, report: &mut Report) {
             report.count(if case.expect.matches { "cases_all_accepted" } else { "cases_with_a_rejected_value" });
             if !case.rule.effects.variables.is_empty() {
                 report.count("cases_with_explicit_variables");
+            }
+            if case.cache_calls > 0 {
+                report.count("cases_with_warmed_cache");
             }
             if case.rule.host.is_some() {
                 report.count("cases_with_host_marker");
